@@ -10,7 +10,7 @@ Init == CInit /\ m = MonSeq(MInit, out)
 Next == CNext /\ m' = MonSeq(m, out')
 Spec == Init /\ [][Next]_vars
 
-NoViol == m.viol = {}
+NoViol == { v \in m.viol : v[2] \notin KnownWhys } = {}
 Inv_C01 == ViolOf(m, "C01") = {}
 Inv_C02 == ViolOf(m, "C02") = {}
 Inv_C03 == ViolOf(m, "C03") = {}
@@ -38,15 +38,31 @@ IdleAtRest == Len(w.stack) = 0 =>
     /\ ~w.ev.reacting /\ ~w.se.reacting /\ ~w.er.reacting /\ ~w.ds.reacting
     /\ \A s \in w.alive : w.storage[s] = "idle"
 
-(* ---- named constant values used by the configurations ---- *)
+(* ---- named constant values used by the configurations (see vlib/configs.py) ---- *)
 NoOps == <<>>
-NoSet == {}
 B_Event == { <<>>, << <<"bc", 1>> >>, << <<"eev", 1, 1>> >>, << <<"anyev", 1>> >>, << <<"res", 1>> >>,
              << <<"bc", 1>>, <<"eev", 1, 1>> >> }
+B_Small == { <<>>, << <<"bc", 1>> >>, << <<"eev", 1, 1>> >>, << <<"bc", 1>>, <<"anyev", 1>> >> }
 B_One == { << <<"bc", 1>> >> }
+B_Comp == { <<>>, << <<"mut", 1>> >>, << <<"rem", 1>> >>, << <<"erem", 1, 1>> >>, << <<"desp", 1>> >>,
+            << <<"ins", 1>>, <<"emut", 1, 1>> >>, << <<"desp", 1>>, <<"desp", 2>> >> }
+B_Types == { << <<"bc", 1>> >>, << <<"bc", 2>> >>, << <<"eev", 1, 1>> >>, << <<"eev", 2, 1>> >>, << <<"eev", 1, 2>> >>,
+             << <<"anyev", 1>> >>, << <<"anyev", 2>> >>, << <<"res", 1>> >>, << <<"res", 2>> >>,
+             << <<"mut", 1>> >>, << <<"mut", 2>> >>, << <<"ins", 1>> >>, << <<"emut", 1, 1>> >>, << <<"emut", 2, 1>> >> }
+B_World == { << <<"bc", 1>> >>, << <<"res", 1>> >>, << <<"mut", 1>> >>, << <<"eev", 1, 1>> >>, << <<"bc", 1>>, <<"mut", 1>> >> }
+Init_World == << <<"ins", 1, 1, 1>>, <<"ins", 2, 1, 1>> >>
 Init_Listen == << <<"reg", "persistent", 1, << <<"bc", 1>>, <<"eev", 1, 1>> >>, 0>>,
                   <<"reg", "persistent", 2, << <<"bc", 1>>, <<"anyev", 1>> >>, 0>> >>
 Init_ListenRc == << <<"reg", "persistent", 1, << <<"bc", 1>>, <<"eev", 1, 1>> >>, 0>>,
                     <<"reg", "cleanup", 2, << <<"bc", 1>>, <<"res", 1>> >>, 0>>,
                     <<"reg", "revokable", 3, << <<"anyev", 1>>, <<"bc", 1>> >>, 1>> >>
+Init_All == << <<"ins", 1, 1, 1>>, <<"ins", 2, 1, 1>>,
+               <<"reg", "persistent", 1, << <<"bc", 1>>, <<"eev", 1, 1>>, <<"mut", 1>>, <<"rem", 1>> >>, 0>>,
+               <<"reg", "persistent", 2, << <<"anyev", 1>>, <<"ins", 1>>, <<"erem", 1, 1>>, <<"desp", 2>> >>, 0>> >>
+Init_Comp == << <<"ins", 1, 1, 1>>, <<"ins", 2, 1, 1>>,
+                <<"reg", "persistent", 1, << <<"mut", 1>>, <<"rem", 1>>, <<"eins", 2, 1>> >>, 0>>,
+                <<"reg", "cleanup", 2, << <<"ins", 1>>, <<"erem", 1, 1>>, <<"desp", 2>> >>, 0>> >>
+Init_Desp == << <<"ins", 1, 1, 1>>,
+                <<"reg", "cleanup", 1, << <<"desp", 1>>, <<"desp", 2>> >>, 0>>,
+                <<"reg", "revokable", 2, << <<"desp", 1>>, <<"rem", 1>> >>, 1>> >>
 =============================================================================
